@@ -210,6 +210,115 @@ theorem stream_special_id_is_error (qid id hdr : Nat) (q : Option Question) (qs 
 example : exchange false 4711 (some ⟨"mail.victim.test.".toList, 1, 1⟩)
     [⟨false, 0, [⟨"mail.victim.test.".toList, 1, 1⟩], 0, false⟩] = (XRes.errId, 1) := by decide
 
+/-- What `pick` selects: a readable candidate with the query's ID; on a datagram
+socket everything before it had another ID, on a stream it is the first message. -/
+theorem pick_got_spec (udp : Bool) (qid : Nat) (cands : List Cand) (j : Nat) (c : Cand) (u : Nat)
+    (hp : pick udp qid cands = (Picked.got j c, u)) :
+    cands[j]? = some c ∧ c.bad = false ∧ c.id = qid ∧ (udp = false → j = 0) := by
+  unfold pick at hp
+  cases udp with
+  | true =>
+    simp only [if_true] at hp
+    cases hl : udpLoop qid cands 0 with
+    | mk r u' =>
+      rw [hl] at hp
+      cases r with
+      | none => simp at hp
+      | some p =>
+        obtain ⟨j', c'⟩ := p
+        simp only [Prod.mk.injEq, Picked.got.injEq] at hp
+        obtain ⟨⟨rfl, rfl⟩, rfl⟩ := hp
+        obtain ⟨_, _, h3, h4, h5, _⟩ := udpLoop_spec qid cands 0 j' c' u' hl
+        exact ⟨by simpa using h3, h4, h5, by simp⟩
+  | false =>
+    simp only [Bool.false_eq_true, if_false] at hp
+    cases cands with
+    | nil => simp at hp
+    | cons d t =>
+      simp only at hp
+      by_cases hb : d.bad = true
+      · simp [hb] at hp
+      · have hb' : d.bad = false := by simpa using hb
+        by_cases hid : d.id = qid
+        · simp only [hb', Bool.false_eq_true, if_false, hid, if_true, Prod.mk.injEq,
+            Picked.got.injEq] at hp
+          obtain ⟨⟨rfl, rfl⟩, _⟩ := hp
+          exact ⟨by simp, hb', hid, fun _ => rfl⟩
+        · simp [hb', hid] at hp
+
+theorem clientLeg_accept (udp : Bool) (qid : Nat) (q : Option Question) (cands : List Cand)
+    (i : Nat) (c : Cand) (h : clientLeg udp qid q false cands = Sum.inr (i, c)) :
+    cands[i]? = some c ∧ c.bad = false ∧ c.id = qid ∧ (udp = false → i = 0) ∧
+      (∀ qq, q = some qq → questionMatches qq c.qs = true) := by
+  unfold clientLeg at h
+  cases hp : pick udp qid cands with
+  | mk r u =>
+    rw [hp] at h
+    cases r with
+    | readErr => simp at h
+    | idErr => simp at h
+    | got j d =>
+      obtain ⟨k1, k2, k3, k4⟩ := pick_got_spec udp qid cands j d u hp
+      cases q with
+      | none =>
+        simp only [Sum.inr.injEq, Prod.mk.injEq] at h
+        obtain ⟨rfl, rfl⟩ := h
+        exact ⟨k1, k2, k3, k4, by intro qq hq; cases hq⟩
+      | some qq =>
+        simp only [Bool.false_or] at h
+        by_cases hm : questionMatches qq d.qs = true
+        · simp only [hm, if_true, Sum.inr.injEq, Prod.mk.injEq] at h
+          obtain ⟨rfl, rfl⟩ := h
+          exact ⟨k1, k2, k3, k4, by intro qq' hq; cases hq; exact hm⟩
+        · simp [hm] at h
+
+/-- **`dnsclient.Client.Exchange` (udp upstream, question guard on): both legs
+are held to the ID and the question.** A reply returned from the datagram leg
+is readable, not truncated, has the query's ID and exactly its question; a
+reply returned from the stream leg that follows a truncated datagram is the
+first message on that stream and — again — has the query's ID and exactly its
+question. Having answered the datagram correctly buys the stream nothing. -/
+theorem client_accepts_only_matching (qid : Nat) (q : Option Question) (us ts : List Cand) :
+    (∀ i, clientExchange qid q false us ts = CliRes.udp i →
+      ∃ c, us[i]? = some c ∧ c.id = qid ∧ c.tc = false ∧
+        ∀ qq, q = some qq → questionMatches qq c.qs = true) ∧
+    (∀ j, clientExchange qid q false us ts = CliRes.tcp j →
+      j = 0 ∧ ∃ c, ts[0]? = some c ∧ c.id = qid ∧ ∀ qq, q = some qq → questionMatches qq c.qs = true) := by
+  unfold clientExchange
+  cases h1 : clientLeg true qid q false us with
+  | inl e => simp
+  | inr p =>
+    obtain ⟨i, c⟩ := p
+    obtain ⟨a1, _, a3, _, a5⟩ := clientLeg_accept true qid q us i c h1
+    simp only
+    by_cases htc : c.tc = true
+    · simp only [htc, if_true]
+      cases h2 : clientLeg false qid q false ts with
+      | inl e => simp
+      | inr p2 =>
+        obtain ⟨j, d⟩ := p2
+        obtain ⟨b1, _, b3, b4, b5⟩ := clientLeg_accept false qid q ts j d h2
+        have hj : j = 0 := b4 rfl
+        subst hj
+        simp only [reduceCtorEq, false_implies, implies_true, CliRes.tcp.injEq, true_and]
+        intro j hj
+        subst hj
+        exact ⟨rfl, d, b1, b3, b5⟩
+    · have htc' : c.tc = false := by simpa using htc
+      simp only [htc', Bool.false_eq_true, if_false, CliRes.udp.injEq, reduceCtorEq, false_implies,
+        implies_true, and_true]
+      intro i' hi
+      subst hi
+      exact ⟨c, a1, a3, htc', a5⟩
+
+-- the seeded shape of C07-22: a correct truncated datagram, then a stream reply with the right ID for another question
+example : clientExchange 4711 (some ⟨"q.test.".toList, 1, 1⟩) false
+    [⟨false, 4711, [⟨"q.test.".toList, 1, 1⟩], 116, true⟩]
+    [⟨false, 4711, [⟨"www.victim.test.".toList, 1, 1⟩], 0, false⟩] = CliRes.err XRes.errQuestion := by decide
+example : clientExchange 4711 (some ⟨"q.test.".toList, 1, 1⟩) false
+    [⟨false, 4712, [], 0, false⟩, ⟨false, 4711, [⟨"q.test.".toList, 1, 1⟩], 116, true⟩]
+    [⟨false, 4711, [⟨"Q.TEST.".toList, 1, 1⟩], 0, false⟩] = CliRes.tcp 0 := by decide
+
 /-- **DoH: the reply's ID is the query's or the RFC 8484 zero, nothing else**,
 also when the query's own ID is 0; and the question guard applies unless the
 caller switched it off. -/
@@ -379,6 +488,53 @@ example : (checkGlue [] false 3 "y.c1.evil.co.test.".toList ["ns1.victim.co.test
 -- … with a level one short of the zone's depth (2: the bailiwick is `co.test.`) it is accepted
 example : (checkGlue [] false 2 "y.c1.evil.co.test.".toList ["ns1.victim.co.test.".toList]
     [⟨"ns1.victim.co.test.".toList, 1, [198, 51, 100, 6]⟩]).servers = [[198, 51, 100, 6]] := by decide
+
+theorem searchCacheWalk_suffix (cached : List Str) : ∀ (l : Name), ∃ pre, l = pre ++ searchCacheWalk cached l := by
+  intro l
+  induction l with
+  | nil => exact ⟨[], rfl⟩
+  | cons x t ih =>
+    unfold searchCacheWalk
+    split
+    · exact ⟨[], rfl⟩
+    · cases t with
+      | nil => exact ⟨[x], by simp⟩
+      | cons y t' =>
+        obtain ⟨pre, hpre⟩ := ih
+        exact ⟨x :: pre, by simp only [List.cons_append]; rw [← hpre]⟩
+
+/-- **Authority selection: the cached zone whose servers are asked is an
+ancestor-or-self of the question name, label for label** (for a DS question:
+of its parent name). Whatever sits in the delegation cache and however the
+name is spelled — `foo\.evil.test.` is one label `foo\.evil.` under `test.` —
+the servers of a zone are never handed a question for a name outside it. -/
+theorem searchCache_selects_ancestor (cached : List Str) (qname : Str) (isDS : Bool) :
+    LabelSuffix (searchCache cached qname isDS).1 (labelsOf qname) ∧
+    (isDS = true → LabelSuffix (searchCache cached qname isDS).1 ((labelsOf qname).drop 1)) := by
+  unfold searchCache
+  simp only
+  constructor
+  · obtain ⟨pre, hpre⟩ := searchCacheWalk_suffix cached (if isDS = true then (labelsOf qname).drop 1 else labelsOf qname)
+    cases isDS with
+    | false =>
+      simp only [Bool.false_eq_true, if_false] at hpre ⊢
+      exact ⟨pre, _, hpre, LabelsEq.refl _⟩
+    | true =>
+      simp only [if_true] at hpre ⊢
+      refine ⟨(labelsOf qname).take 1 ++ pre, _, ?_, LabelsEq.refl _⟩
+      rw [List.append_assoc, ← hpre, List.take_append_drop]
+  · intro hds
+    subst hds
+    simp only [if_true]
+    obtain ⟨pre, hpre⟩ := searchCacheWalk_suffix cached ((labelsOf qname).drop 1)
+    exact ⟨pre, _, hpre, LabelsEq.refl _⟩
+
+-- the seeded shape of C07-23: with evil.test. cached, `foo\.evil.test.` goes to the root / test. side, never to evil.test.
+example : (searchCache ["evil.test.".toList] "foo\\.evil.test.".toList false).1 = [] := by decide
+example : (searchCache ["evil.test.".toList, "test.".toList] "foo\\.evil.test.".toList false)
+    = (["test.".toList], 1) := by decide
+example : (searchCache ["evil.test.".toList] "A.Evil.test.".toList false) = (["Evil.".toList, "test.".toList], 2) := by decide
+example : (searchCache ["evil.test.".toList, "test.".toList] "evil.test.".toList true) = (["test.".toList], 1) := by decide
 
 /-- **The level is never below the depth of the zone being asked**, along any
 sequence of the descent's steps (seed from the delegation cache, follow a
